@@ -40,6 +40,10 @@ def run():
     for i in range(nruns):
         threads = [2, 1, 4, 3][i % 4]
         runs.append(([chk.seed * 1000 + i, nhist, 1 if i % 4 else 0, "cv", "--pika:threads=%d" % threads], None))
+    # focused scenarios: setter queued on the user lock while the waiter is about to wait (slow unlock), stop
+    # request swept across waiters that come round their loop while notifiers hold the internal lock
+    for i in range(24 if chk.thorough() else 10):
+        runs.append(([chk.seed * 1000 + 500 + i, 80, 1, "cv+focus", "--pika:threads=%d" % [4, 3, 2][i % 3]], None))
     # dedicated runs for the known finding (OS-thread timed waits); they end at the first hang
     for i in range(2):
         runs.append(([chk.seed * 1000 + 900 + i, 30, 1, "cv+ostimed", "--pika:threads=2"], None))
